@@ -14,6 +14,7 @@ def run(F, ctx):
         "that loads a snapshot, and every public executor of KnowledgeGraphSnapshot) the call graph (with class-hierarchy expansion of dyn calls, closure and fn-item "
         "edges) reaches no durable-state sink, no KnowledgeGraph mutator of served state and no snapshot publication; queries run on a per-query engine built from the "
         "immutable snapshot; the KnowledgeGraph methods that evaluate on the graph's own engine have no caller. "
+        "At the level of the query engine itself (a reused IQLEngine), what a run adds to the engine's own facts - magic-set seeds - is removed again on every exit of the run. "
         "Not decided: independence of answers from clause order / repetition (value-level; HashMap iteration order)."
     )
     muts = set(c20.kg_mutators(F)) | {c20.PUB}
@@ -80,4 +81,51 @@ def run(F, ctx):
             ctx.site("%s callers" % n.split("::")[-1], F.fn(n).where(), ok=not callers, callers=callers)
             if callers:
                 ctx.violation("%s:R-C04-c:own-engine-query" % n, "%s (which evaluates on the knowledge graph's own engine, under &mut) is now called from %s: a query can leave state behind in the served engine" % (n.split("::")[-1], callers), F.fn(n).where())
+    ctx.end_rule()
+
+    # ---- d: what a run adds to the engine's own facts is removed when the run ends
+    from . import dur
+    from ..core import op_local
+    ENG = "IQLEngine"
+    ctx.rule("R-C04-d", "a run of the query engine leaves the engine's facts as it found them: every write to input_tuples on the query path is undone on every exit of the run", floor=1)
+    qpath = F.reach([ENG + "::execute_tuples", ENG + "::execute_tuples_with_derived", ENG + "::execute_tuples_profiled"])
+    writers, removers = [], []
+    for n in sorted(qpath):
+        if not n.startswith(ENG + "::") or n not in F.bodies:
+            continue
+        f = F.fn(n)
+        acc = [(bb, kind) for (bb, kind, a2, fld, line, pl) in f.field_accesses() if a2 == ENG and fld == "input_tuples" and kind in ("w", "wb", "wp")]
+        if not acc:
+            continue
+        removes = [c for c in f.normal_calls() if re.search(r"HashMap::<std::string::String, std::vec::Vec<value::Tuple>>::remove(::<.*>)?$", c.static_args or "")]
+        adds = [c for c in f.normal_calls() if re.search(r"HashMap::<std::string::String, std::vec::Vec<value::Tuple>>::(insert|entry)$", c.static_args or "")]
+        if adds:
+            writers.append(n)
+        if removes and not adds:
+            removers.append(n)
+    if not writers:
+        ctx.site("no function on the query path adds to the engine's input_tuples", F.fn(ENG + "::execute_tuples_profiled").where(), ok=True)
+    for w in writers:
+        # entries that (transitively) call the writer must call a remover after it on every exit
+        ok = False
+        where = F.fn(w).where()
+        for e_ in sorted(qpath):
+            if not e_.startswith(ENG + "::") or e_ not in F.bodies or "{closure" in e_:
+                continue
+            ef = F.fn(e_)
+            rm = [c for c in ef.normal_calls() if c.resolved in removers]
+            inner = [c for c in ef.normal_calls() if c.resolved and c.resolved != w and c.resolved in F.bodies and w in F.reach([c.resolved]) and c.resolved not in removers]
+            if rm and inner:
+                good = True
+                for c in inner:
+                    okp, wit = dur.must_pass(ef, [x.bb for x in rm], start=c.target if c.target is not None else c.bb)
+                    # also when the inner call fails: the remover is not confined to the success side
+                    err_ok = ef.path(c.target, [r_ for r_ in ef.return_blocks()], stop={x.bb for x in rm}) is None if c.target is not None else False
+                    good = good and okp and err_ok
+                if good:
+                    ok = True
+                    where = ef.where()
+        ctx.site("%s adds facts to the engine during a run; a caller removes them on every exit" % w.split("::")[-1], where, ok=ok, removers=[r_.split("::")[-1] for r_ in removers])
+        if not ok:
+            ctx.violation("%s:R-C04-d:run-leaves-facts-in-the-engine" % w, "%s writes into the engine's input_tuples during a query run (magic-set seeds) and nothing removes them when the run ends: a reused engine shows base facts nobody inserted, and a later program on the same engine returns other rows than on a fresh one" % w.split("::")[-1], F.fn(w).where())
     ctx.end_rule()
